@@ -15,6 +15,7 @@ from .explore import explore, prove
 from .heap import DEFPOW, FACT, POW, SIGMA
 from .parsesym import TOKEN_NAMES, make_interp, run_parse
 from .values import IdStr, Num, Obj, OutOfSubset, zreal
+from .values import zbool as zbool_
 
 sys.path.insert(0, os.path.dirname(os.path.dirname(os.path.abspath(__file__))))
 from contracts.grammar import has_division_chain, spec_parse  # noqa: E402
@@ -54,6 +55,10 @@ def tree_to_tuple(I, o: Obj, leaves: Dict[int, Any], seen=None, problems=None):
         if l is not None or r is not None:
             problems.append("constant with children")
         if isinstance(v, Num):
+            if getattr(v, "rounded", False) and not (v.tag[0] is True):
+                # may be an integer literal: did it go through a float?
+                if not z3.is_true(z3.simplify(zbool_(v.tag[0]))):
+                    problems.append("an integer literal is converted through float (inexact beyond 2^53)")
             for i, leaf in leaves.items():
                 if isinstance(leaf, Num):
                     if z3.is_true(z3.simplify(zreal(v) == zreal(leaf))):
